@@ -157,7 +157,7 @@ func forbiddenTokens() []string {
 	return hits
 }
 
-var reAxioms = regexp.MustCompile(`(?m)^'([^']+)' (depends on axioms: \[([^\]]*)\]|does not depend on any axioms)`)
+var reAxioms = regexp.MustCompile(`(?m)^'(.+)' (depends on axioms: \[([^\]]*)\]|does not depend on any axioms)`)
 
 // obligations: extract -> lake build -> audit. Fills ctx.Cov and ctx.Broken.
 func obligations(ctx *Ctx, pc *propCheck) {
